@@ -14,10 +14,11 @@ import (
 )
 
 func c16RandChildren(rnd *rand.Rand, fmtName string, maxCh, maxAt int) []wpw.Child {
-	wr := []string{"r", "r", "span", "link"}
+	wr := []string{"r", "r", "span", "link", "span>link", "link>span", "span>link>span", "ruby", "link>ruby"}
 	at := []string{"t", "t", "tab", "br", "s"}
 	if fmtName == "docx" {
-		wr = []string{"r", "r", "span", "link", "ins", "sdt"}
+		wr = []string{"r", "r", "span", "link", "ins", "sdt", "smartTag", "fldSimple", "bdo", "link>ins", "sdt>link", "link>sdt>ins",
+			"bdo>link>ins", "sdt>sdt", "ins>link", "fldSimple>link", "link>smartTag"}
 		at = []string{"t", "t", "sym", "tab", "br"}
 	}
 	for {
